@@ -6,7 +6,7 @@ from struct import pack
 
 import rv
 from rv.chunks import ArrayChunk
-from rv.controller import Controller, Range
+from rv.controller import Controller
 from rv.modules import Behavior as B
 from rv.modules import Module
 from rv.modules.base.metamodule import BaseMetaModule
@@ -308,9 +308,6 @@ class MetaModule(BaseMetaModule, Module):
             controller_index = mapping.controller
             if controller_index < len(controllers):
                 ctl_name, ctl = controllers[controller_index]
-                t = ctl.instance_value_type(mod)
-                if isinstance(t, Range):
-                    value += t.min
                 ctl.propagate(mod, value, down=True)
         super(MetaModule, self).on_controller_changed(controller, value, down, up)
 
